@@ -32,13 +32,14 @@ type ReplayFile struct {
 var claimed = map[string]bool{"C06": true, "C07": true, "C08": true, "C13": true, "C14": true}
 
 type driver struct {
-	verifDir  string
-	self      string
-	tmp       string
-	workers   int
-	seq       int
-	mu        sync.Mutex
-	raceStats map[string]any
+	verifDir    string
+	self        string
+	tmp         string
+	workers     int
+	seq         int
+	mu          sync.Mutex
+	raceStats   map[string]any
+	spsaWorkers int
 }
 
 func envInt(name string, def int) int {
@@ -402,6 +403,11 @@ func (d *driver) check(prop, tier string) int {
 			bin := d.self
 			if sb := os.Getenv("VERIF_SPSA_BIN"); sb != "" && ((tier == "thorough" && i%2 == 1) || (tier == "quick" && i%8 == 7)) {
 				bin = sb
+			}
+			if bin != d.self {
+				d.mu.Lock()
+				d.spsaWorkers++
+				d.mu.Unlock()
 			}
 			job := Job{Property: prop, Tier: tier, Master: master, Worker: i, Workers: d.workers, BudgetS: budget, MaxRuns: envInt("VERIF_MAX_RUNS", 0)}
 			for restarts := 0; ; restarts++ {
